@@ -108,7 +108,14 @@ def _fd_jacobian(func, values, kwargs, out_shape):
             return (np.asarray(func(vp, **kw), dtype=float) - np.asarray(func(vm, **kw), dtype=float)) / (2 * hh)
         d1 = cd(h)
         d2 = cd(h / 2)
-        d = (4 * d2 - d1) / 3
+        d4 = cd(h / 4)
+        d = (4 * d4 - d2) / 3
+        # self-validation: two Richardson estimates must agree, else the function is too curved for
+        # this oracle at this point and the call is not judged
+        dprev = (4 * d2 - d1) / 3
+        err = np.max(np.abs(d - dprev))
+        if not np.all(np.isfinite(d)) or err > 1e-7 * (np.max(np.abs(d)) + 1e-3):
+            raise FloatingPointError('finite-difference gradient not reliable')
         jac[(Ellipsis,) + idx] = d
     return jac
 
@@ -161,6 +168,9 @@ class DerivedObsMonitor(taps.Monitor):
         else:
             try:
                 deriv = _fd_jacobian(func, values, fkw, new_values.shape)
+            except FloatingPointError:
+                ctx.count('L1_fd_oracle_unreliable_not_judged')
+                return
             except Exception:
                 ctx.count('L1_calls_not_judged')
                 return
@@ -196,9 +206,12 @@ class DerivedObsMonitor(taps.Monitor):
                 # a finite-difference gradient carries an absolute error; with rtol 2e-6 this floor allows 2e-9 (1 + |f|): without this floor a
                 # derivative that is zero to rounding (saturated tanh, exact cancellation) would be judged at 0
                 scale += dense.delta_scale(snaps, np.full(len(g), 1e-3 * (1.0 + abs(float(new_values[i_val]))))) * wmax
+            gfloor = 0.0
+            if path != 'man_grad':
+                gfloor = 1e-3 * (1.0 + abs(float(new_values[i_val]))) * max([0.0] + [float(np.max(np.abs(c[1]))) for sn in snaps for c in sn['cov'].values() if c[1].size])
             compare_obs(ctx, got, ref, 'L1:' + path, scale=scale, rtol=rtol, vtol=1e-12,
                         what='derived_observable output %s of %d inputs' % (i_val, nin),
-                        rv_tol=1e-11)
+                        rv_tol=1e-11, grad_floor=gfloor)
             if any(np.any(s['chains'][c][1] != 0) for s in snaps for c in s['chains']):
                 aligned = any(len(union[c]) != len(s['chains'][c][0]) for s in snaps for c in s['chains']) or \
                     any(set(s['chains']) != set(chains) for s in snaps if s['chains'])
